@@ -3,6 +3,7 @@ import Req.Pool.Dispatch
 import Req.Pool.Tls
 import Req.Pool.TlsFamily
 import Req.Pool.TlsPaths
+import Req.Pool.TlsOrder
 import Req.Pool.ProxyDispatch
 import Req.Pool.AltSvcState
 import Req.Pool.AltSvcClient
@@ -205,9 +206,24 @@ def sGiven : Option Given → String
 
 def fpCopiedFull : List FpField := [.serverName, .rootCAs, .insecureSkipVerify, .certificates, .nextProtos]
 
+def pHookOp : String → Option HookOp
+  | "Hfp" => some .fingerprint
+  | "Huser" => some .userHandshake
+  | "Hnone" => some .noHandshake
+  | "Hdial1" => some (.dialTLS true)
+  | "Hdial0" => some (.dialTLS false)
+  | _ => none
+
+/-- setter sequences of `c12path`: TLS setters (`pOp`) and hook setters (`H…`) in any order -/
+def pPOps (s : String) : Option (List POp) :=
+  if s == "-" then some [] else (s.splitOn ",").mapM fun t =>
+    if t.startsWith "H" then (pHookOp t).map .hook else (pOp t).map .tls
+
 /-- `c12path <path> <dialTLS> <hs> <trustOK> <onlyH1> <force> <host> <issuer> <names> <acceptableCAs>
-<serverALPN> <ops>`: a NEW connection on dial path `<path>` of a client with the hooks
-`<dialTLS>`/`<hs>` after the TLS setters `<ops>`: who governs the handshake, what the hook is
+<serverALPN> <ops>`: a NEW connection on dial path `<path>` of a client after the setter
+sequence `<ops>` (TLS setters and hook setters `Hfp|Huser|Hnone|Hdial1|Hdial0` interleaved,
+run by the pointer-level `Req.Pool.TLS.prun`), then the hook setters `<hs>` / `<dialTLS>`
+(when not `-` / `0`): who governs the handshake, what the hook is
 handed, and — when no user function governs — the SNI, the offered ALPN list (under the
 fingerprint the preset's list), the verdict against a server certificate of CA
 `<issuer>` for `<names>`, the client certificate presented, and whether `dialConn` hands the
@@ -216,10 +232,18 @@ trusts per `<trustOK>`, offers no ALPN) only yields its verdict. -/
 def lanePathWith (copied : List FpField) : List String → String
   | [path, dial, hs, trust, onlyH1, force, host, issuer, names, acc, srvAlpn, ops] =>
     match pPath path, pBool dial, pHs hs, pBool trust, pBool onlyH1, pForce force, host.toNat?, issuer.toNat?,
-      pDigits names, pDigits acc, pAlpns srvAlpn, pOps ops with
-    | some p, some d, some hk, some tr, some o, some f, some h, some iss, some ns, some acc, some sa, some os =>
-      let hooks : Hooks := ⟨d, hk⟩
-      let read := run (some initialCfg) os
+      pDigits names, pDigits acc, pAlpns srvAlpn, pPOps ops with
+    | some p, some d0, some hk0, some tr, some o, some f, some h, some iss, some ns, some acc, some sa, some os =>
+      let tail : List POp :=
+        (match hk0 with
+         | some .fingerprint => [.hook .fingerprint]
+         | some .user => [.hook .userHandshake]
+         | none => []) ++ (if d0 then [.hook (.dialTLS true)] else [])
+      let fin := prun .atHandshake PClient.init (os ++ tail)
+      let hooks : Hooks := hooksOf fin
+      let d := hooks.dialTLS
+      let hk := hooks.handshake
+      let read := readFor .atHandshake fin p
       match governs hooks p with
       | .userDialTLS => s!"gov=dial given={sGiven (dialTLSGiven h p)} accept={if tr && ns.contains h then 1 else 0}"
       | .userHandshake =>
